@@ -258,7 +258,7 @@ def main(argv):
             if e.get('status') == 'open' and e.get('witness_cases'):
                 by_case = {'explain-field-only-sort': W.w_explain, 'aggs-after-cursor': W.w_agg_pages, 'histogram-min-doc-count-per-segment': W.w_terms_layout,
                            'unscored-alternatives-lose-documents': W.w_optional_clauses, 'bmw-skips-better-block': W.w_bmw_blocks,
-                           'date-histogram-fixed-rounds-up': W.w_date_buckets, 'nested-shape-after-compaction': getattr(W, 'w_nested_compact', None), 'second-live-writer-handle': W.w_two_writers, 'oversize-document-blocks-commits': W.w_oversize, 'delete-only-commit-keeps-cursor': W.w_stale_cursor}
+                           'date-histogram-fixed-rounds-up': W.w_date_buckets, 'nested-shape-after-compaction': getattr(W, 'w_nested_compact', None), 'second-live-writer-handle': W.w_two_writers, 'oversize-document-blocks-commits': W.w_oversize, 'delete-only-commit-keeps-cursor': W.w_stale_cursor, 'unmatched-clause-adds-score': W.w_unmatched_clause, 'dotted-leaf-wrong-object': W.w_dotted_leaf}
                 replay = next((by_case[c] for c in e['witness_cases'] if by_case.get(c)), None)
                 r = replay({}, tier) if replay else dict(found=False, note='no replay generator')
                 print('known finding %s %s: %s' % (e['property'], e['witness_cases'], 'still reproduces: ' + str(r.get('input')) + ' / ' + str(r.get('observed'))[:200] if r.get('found') else 'does NOT reproduce any more'))
